@@ -22,6 +22,7 @@ LEVEL_NOTE = ("Not decided: equality of results over all permutations (a schedul
               "legitimately depends on order and is outside the property.")
 LEVEL_TEXT += (" (C06.C) the checker context holds no interior mutability, so the checker's verdict cannot depend on stanza order either.")
 LEVEL_TEXT += (' (E5.keep) deferred work is never filtered, de-duplicated, truncated or reordered outside the listed sites; E3.l includes the must-pass-through form (no successful checker path avoids the locality test of an eagerly evaluated source).')
+LEVEL_TEXT += (' (E6.r) the collection phase never reads a field of the deferred stores, not even through a new accessor; (E6.s) the evaluation context consists of references only (no depth / budget counters, whose exhaustion would depend on forcing order); (E5.key) no text-keyed tables.')
 
 
 def lazy_routing(prog, rep):
@@ -123,6 +124,19 @@ def run(prog, rep):
     lazy_routing(prog, rep)
     from ..engines import e5_writers as _e5
     _e5.no_dropped_elements(prog, rep)
+    _e5.no_text_keyed_tables(prog, rep)
+    _e5.collection_phase_is_blind(prog, rep)
+    # the evaluation phase carries no state of its own: memoised thunks make the *amount* of work (depth, steps) needed for one value
+    # depend on what was forced before, so any budget / depth / step counter turns the forcing order — i.e. the stanza order — into
+    # success or failure
+    rep.rule("E6.s", "lazy::EvaluationContext consists of references to the stores, the graph and the configuration only (no counters, budgets or depths of its own)")
+    ec = prog.adts.get("tsg::execution::lazy::EvaluationContext")
+    if ec is None:
+        rep.violation("E6.s", "anchor-lost:EvaluationContext", "", "type not found")
+    else:
+        owned = [(fd["name"], prog.lib.types[fd["ty"]].s) for fd in ec["variants"][0]["fields"] if not prog.lib.types[fd["ty"]].s.startswith("&")]
+        rep.check(not owned, "E6.s", "EvaluationContext :: references only", "", "%d fields, all references" % len(ec["variants"][0]["fields"]),
+                  "the evaluation context owns state of its own (%s): a bound on it is reached or not depending on the order in which thunks are forced" % owned[:3])
     # the context handed from stanza to stanza is read-only: no memo/cache can carry facts of one stanza into the check of another
     from ..lib import typewalk
     rep.rule("C06.C", "tsg::checker::CheckContext holds no interior mutability (every stanza is checked against the file, never against what earlier stanzas left behind)")
@@ -162,13 +176,7 @@ def run(prog, rep):
         want = {"Unforced": (True, []), "Forcing": (False, ["RecursivelyDefinedScopedVariable"]), "Forced": (False, ["VariableScopesAlreadyForced"])}
         rep.check(outcome == want, "E6.a", "LazyScopedVariables::add :: states", f.loc(), "Unforced pushes; Forcing/Forced are errors", "state table of scoped add is %s" % outcome)
     # E5 append-only stores
-    rep.rule("E5", "the deferred stores (LazyStore.elements, LazyGraph.*_statements, the Unforced pair list) are append-only during collection")
-    n = 0
-    n += e5.check_writers(prog, rep, "E5", "tsg::execution::lazy::store::LazyStore", "elements", {("add", "push")}, "thunks are only appended")
-    for fld in ("edge_statements", "attr_statements", "print_statements"):
-        n += e5.check_writers(prog, rep, "E5", "tsg::execution::lazy::statements::LazyGraph", fld, {("push", "push")}, "deferred statements are only appended")
-    n += e5.check_writers(prog, rep, "E5", "tsg::execution::lazy::store::LazyScopedVariables", "variables", {("add", "entry")}, "scoped names are only added")
-    rep.floor("E5", n, 5, "deferred-store mutation sites")
+    e5.deferred_stores_append_only(prog, rep, "E5")
     # E4 over the lazy interpreter
     rep.rule("E4", "no iteration over a hash container in the lazy interpreter reaches an order-sensitive use (which error is reported, what is evaluated)")
     ne = e4.run_e4(prog, rep, file_filter=lambda f: f.file.startswith("src/execution/lazy"))
@@ -180,32 +188,5 @@ def run(prog, rep):
 
 def _run_c06_subset(prog, rep):
     """locality table, eager = local-required, forcing only via evaluate_eager (shared with C06)"""
-    class Sub:
-        def __init__(self, rep):
-            self.rep = rep
-            self.notes = rep.notes
-        def rule(self, rid, text):
-            if rid in ("C06.L", "E3.l"):
-                self.rep.rule(rid, text)
-        def ok(self, rule, key, where="", detail=""):
-            if rule in ("C06.L", "E3.l"):
-                self.rep.ok(rule, key, where, detail)
-        def violation(self, rule, key, where="", detail=""):
-            if rule in ("C06.L", "E3.l"):
-                self.rep.violation(rule, key, where, detail)
-        def unresolved(self, *a, **k):
-            pass
-        def check(self, cond, rule, key, where="", detail="", fail_detail=None):
-            if cond:
-                self.ok(rule, key, where, detail)
-            else:
-                self.violation(rule, key, where, fail_detail or detail)
-            return cond
-        def floor(self, rule, found, expected, what):
-            if rule in ("C06.L", "E3.l"):
-                self.rep.floor(rule, found, expected, what)
-        def trust(self, t):
-            pass
-        def assume(self, t):
-            pass
-    C06.run(prog, Sub(rep))
+    from ..lib.report import Filtered
+    C06.run(prog, Filtered(rep, lambda rule, key: rule in ("C06.L", "E3.l"), floors=True))
